@@ -83,6 +83,35 @@ def request(case):
     tree = lambda e: ['c01', 'tree', e]
     anyB = any(o['k'] == 'B' for o in opds)
 
+    if OPS[op].get('inplace'):
+        # in-place forms (qube.py __iadd__ ... __imod__): number fast paths leave the mask alone, Qube operands are
+        # merged with _merge_mask_, the divisions guard the divisor first, matrices commit the out-of-place product
+        a, b = opds
+        base = OPS[op]['inplace']
+        ip = lambda kind, fail='N': ['c01', 'inplace', kind, [K.opd_wire(a), K.opd_wire(b)], fail]
+        if op == 'ipow':                                   # no __ipow__: Python falls back to a = a ** b
+            return request(dict(case, op='pow'))
+        if op == 'imatmul':
+            return ip('matmul')
+        if op == 'imatdiv3':                               # Matrix3.reciprocal() is the transpose: nothing can fail
+            return ip('matmul')
+        if op == 'imatdiv':
+            return ip('matdiv', fw(1, f[1], opds, out))
+        if base in ('add', 'sub'):
+            if a['k'] in ('S', 'Si') and (isnum[1] or (kinds[1] == 'ndarray' and (a['shape'] or not b['shape']))):
+                return ip('number')
+            return ip('merge')
+        if base in ('mul', 'vmul'):
+            return ip('number') if isnum[1] else ip('merge')
+        if base in ('div', 'vdiv'):
+            if isnum[1] and float(K.values_of(b)) != 0:
+                return ip('number')
+            return ip('divMerge', fw(1, f[1], opds, out))
+        if base in ('floordiv', 'mod'):
+            if isnum[1] and float(K.values_of(b)) != 0:
+                return ip('number')
+            return ip('pipeMerge', fw(1, f[1], opds, out))
+        return None
     if op in ('add', 'sub', 'mul'):
         a, b = opds
         if isnum[1]:
@@ -276,6 +305,8 @@ def oracle(case):
     if e is not None:
         if fast and isinstance(e, ValueError):
             return None
+        if OPS[case['op']].get('inplace') and isinstance(e, (TypeError, ValueError)):
+            return None                                    # the in-place form is not accepted (int /= float, shape grows, ...)
         return (signature(case), '%s raised %s: %s' % (case['op'], type(e).__name__, e))
     if not isinstance(r, Qube):
         return (signature(case), '%s returned %s' % (case['op'], type(r).__name__))
@@ -426,10 +457,13 @@ def lapack_agrees(o):
 
 
 def mk(case):
-    try:
-        case['req'] = request(case)
-    except Exception as e:                    # a request builder crash must be visible, not silent
-        raise
+    case['req'] = request(case)
+    if OPS[case['op']].get('inplace') and case['req'] is not None:
+        # C01 speaks about in-place forms "whenever they are accepted": a documented rejection (int target with a
+        # float operand, Boolean target, operand that does not broadcast into the target ...) is C19's business
+        r, e, w = K.run_real(case)
+        if isinstance(e, (TypeError, ValueError)):
+            case['req'] = None
     opds = K.logical_opds(case)
     nt = any(K.opd_mask_bits(o).any() for o in opds)
     f = K.fail_set(case) if K.lead_bcast([o['shape'] for o in opds]) is not None else None
@@ -509,6 +543,53 @@ def gen_cases(rng, tier):
                 b = rand_opd(rng, 'S', s, 'div')
                 b['mask'] = a['mask']
                 cases.append(mk({'op': op, 'opds': [a, b], 'share': True}))
+    # 1a. in-place operators: the operand must broadcast INTO the target; the target's new mask = the direct form's mask
+    INTO = [(sa, sb) for sa, sb in SHAPE_PAIRS if K.lead_bcast([sa, sb]) == list(sa)]
+    IP_SCALAR = ['iadd', 'isub', 'imul', 'idiv', 'ifloordiv', 'imod', 'ipow']
+    IP_OTHER = [('ivadd', 'V3', 'V3'), ('ivsub', 'M2', 'M2'), ('ivadd', 'Q', 'Q'), ('ivmul', 'V3', 'S'), ('ivmul', 'M2', 'Si'),
+                ('ivmul', 'Q', 'B'), ('ivmul', 'V2', 'N'), ('ivmul', 'P', 'A'), ('ivdiv', 'V3', 'S'), ('ivdiv', 'M2', 'S'),
+                ('ivdiv', 'Q', 'N'), ('ivdiv', 'V2', 'Ni'), ('ivdiv', 'V3', 'B'),
+                ('imatmul', 'M2', 'M2'), ('imatmul', 'M3', 'M3'), ('imatmul', 'R', 'R'), ('imatmul', 'M3', 'R'),
+                ('imatdiv', 'M2', 'M2'), ('imatdiv', 'M3', 'M3'), ('imatdiv3', 'R', 'R')]
+    for _ in range(reps):
+        for op in IP_SCALAR:
+            for ka in ('S', 'Si'):
+                for kb in ('S', 'Si', 'B', 'N', 'Ni', 'A'):
+                    if op == 'ipow' and kb in ('B', 'A'):
+                        continue
+                    for sa, sb in INTO:
+                        if KINDS[kb][0] == 'number' and sb:
+                            continue
+                        if not thorough and rng.random() < 0.5:
+                            continue
+                        base = OPS[op]['inplace']
+                        a = rand_opd(rng, ka, sa, 'base' if base == 'pow' else 'any')
+                        b = rand_opd(rng, kb, sb, ROLE2.get(base, 'any'))
+                        cases.append(mk({'op': op, 'opds': [a, b]}))
+        for op, ka, kb in IP_OTHER:
+            for sa, sb in INTO:
+                if KINDS[kb][0] == 'number' and sb:
+                    continue
+                a = rand_opd(rng, ka, sa)
+                b = rand_opd(rng, kb, sb, ROLE2.get(OPS[op]['inplace'], 'any'))
+                if op == 'imatdiv' and kb != 'R' and not lapack_agrees(b):
+                    continue
+                cases.append(mk({'op': op, 'opds': [a, b]}))
+        # the same object / the same mask array on both sides, and views of one parent
+        for op in ('iadd', 'isub', 'imul', 'idiv'):
+            for s in ([3], [2, 3], [1]):
+                a = rand_opd(rng, 'S', s, 'div')
+                if not isinstance(a['mask'], str):
+                    cases.append(mk({'op': op, 'opds': [a, dict(a)], 'alias': True}))
+                for mode in ('rows', 'shift', 'rev'):
+                    c = prov_case(rng, op, 'S', s, mode)
+                    if c is not None:
+                        cases.append(c)
+        for mode in ('rows', 'shift', 'stride'):
+            for op, kind in (('imatmul', 'M2'), ('imatmul', 'R'), ('ivadd', 'V3')):
+                c = prov_case(rng, op, kind, [2], mode)
+                if c is not None:
+                    cases.append(c)
     # 1b. operand provenance: distinct views of one parent (mask arrays share a base, offsets differ)
     PROV = [('add', 'S'), ('sub', 'S'), ('mul', 'S'), ('div', 'S'), ('floordiv', 'Si'), ('mod', 'S'), ('pow', 'S'),
             ('arctan2', 'S'), ('sub', 'B'), ('mul', 'Si'), ('dot', 'V3'), ('cross', 'V3'), ('cross', 'V2'),
